@@ -159,3 +159,87 @@ def siblings_distinct(cmds):
                 return False
             seen.add(n)
     return all(siblings_distinct(c["subs"]) for c in cmds if c["enabled"])
+
+
+# ---------------------------------------------------------------- collisions the code accepts, named paths
+COLLISION_KINDS = ["alias-is-later-name", "alias-is-earlier-name", "alias-is-alias", "duplicate-name"]
+
+
+def _levels(t):
+    """every sibling list of the tree with >= 2 commands: (depth, list)"""
+    out = []
+
+    def go(cs, depth):
+        if len(cs) >= 2:
+            out.append((depth, cs))
+        for c in cs:
+            go(c["subs"], depth + 1)
+    go(t["cmds"], 1)
+    return out
+
+
+def collide(rng, t, kind, min_depth=2, max_depth=99):
+    """Makes two named, enabled siblings of `t` (at depth >= min_depth; depth 1 = the application's own commands) collide in
+    one of COLLISION_KINDS; returns the depth used or None when the tree has no such level.  Console applications validate
+    only the NAME of a new top-level command against the names and aliases already there; Command.add_sub_command
+    validates nothing ("TODO: Validate command") - so every kind is accepted below the top level, and at the top level
+    the kind "alias-is-earlier-name" / "alias-is-alias" is."""
+    lv = [(d, cs) for d, cs in _levels(t) if min_depth <= d <= max_depth]
+    if not lv:
+        return None
+    d, cs = rng.choice(lv)
+    i, j = sorted(rng.sample(range(len(cs)), 2))
+    a, b = cs[i], cs[j]
+    for x in (a, b):
+        x["enabled"] = True
+        if x["anonymous"]:
+            x["anonymous"] = False
+    if kind == "alias-is-later-name":
+        a["aliases"] = list(a["aliases"]) + [b["name"]]
+    elif kind == "alias-is-earlier-name":
+        b["aliases"] = list(b["aliases"]) + [a["name"]]
+    elif kind == "alias-is-alias":
+        al = (a["aliases"] or b["aliases"] or ["x"])[0]
+        for x in (a, b):
+            if al not in x["aliases"]:
+                x["aliases"] = list(x["aliases"]) + [al]
+    elif kind == "duplicate-name":
+        b["name"] = a["name"]
+    else:
+        raise ValueError(kind)
+    return d
+
+
+def rand_tree_colliding(rng, maxdepth=2, kind=None, min_depth=2, max_depth=99):
+    """a random tree with one sibling collision of the given kind at a depth in min_depth..max_depth (see `collide`)"""
+    kind = kind or rng.choice(COLLISION_KINDS)
+    for _ in range(200):
+        t = rand_tree(rng, maxdepth, True)
+        if collide(rng, t, kind, min_depth, max_depth) is not None:
+            return t
+    raise RuntimeError("no tree with two siblings at depth >= %d" % min_depth)
+
+
+def rand_tree_depth(rng, depth=3):
+    """a random tree that has at least one enabled, named path of `depth` commands"""
+    for _ in range(500):
+        t = rand_tree(rng, depth, True)
+        if any(len(p) >= depth for p, _ in named_paths(t)):
+            return t
+    raise RuntimeError("no tree of depth %d" % depth)
+
+
+def named_paths(t):
+    """every path of enabled, named commands: (list of names, list of the command dicts on it)"""
+    out = []
+
+    def go(c, pre, nodes):
+        if not c["enabled"] or c["anonymous"]:
+            return
+        p, n = pre + [c["name"]], nodes + [c]
+        out.append((p, n))
+        for s in c["subs"]:
+            go(s, p, n)
+    for c in t["cmds"]:
+        go(c, [], [])
+    return out
